@@ -1004,6 +1004,11 @@ func (rl *Shell) viYankWholeLine() {
 		epos--
 	}
 
+	// The line might be empty (only its newline was selected).
+	if epos < bpos {
+		epos = bpos
+	}
+
 	// Pass the buffer to register.
 	buffer := (*rl.line)[bpos:epos]
 	rl.Buffers.Write(buffer...)
